@@ -247,12 +247,28 @@ def y3(chk, repo):
     L = Layouts(repo)
     md = repo.module("ceos_alos2.sar_image.metadata")
     tl = md.func("transform_line_metadata")
+    # which fields of a line record surface in the tree: read off the output of shape inference over transform_line_metadata
+    # (wherever the list of ignored fields lives); the literal `ignored = [...]` is only the fallback
+    from ..shapes import DictS, Obj
+    from ..shapes_rules import pipelines
+    surfacing = {}
+    try:
+        P = pipelines(repo, L)
+        for key in ("signal", "processed"):
+            res = P.get(f"lines:{key}")
+            data = res.fields.get("data") if isinstance(res, Obj) else None
+            attrs = res.fields.get("attrs") if isinstance(res, Obj) else None
+            if not isinstance(data, DictS):
+                raise AnalysisError("no group of variables")
+            surfacing[key] = set(data.items) | (set(attrs.items) if isinstance(attrs, DictS) else set())
+    except AnalysisError:
+        surfacing = {}
     ignored = None
     for n in tl.own_nodes():
         if isinstance(n, ast.Assign) and norm(n.targets[0]) == "ignored" and isinstance(n.value, ast.List):
             ignored = [const_str(e) for e in n.value.elts]
-    if ignored is None:
-        raise AnalysisError("anchor vanished: ignored list of transform_line_metadata")
+    if ignored is None and not surfacing:
+        raise AnalysisError("anchor vanished: neither the output of shape inference nor an `ignored` list of transform_line_metadata tells which fields surface")
     # is there a flattening stage before the merge? (none today: the pipeline starts with merge_with(list))
     flatten = any("flatten" in norm(c.func) or norm(c.func).endswith("remove_nesting_layer") for c in calls_in(tl))
     for key in ("signal", "processed"):
@@ -261,7 +277,7 @@ def y3(chk, repo):
             if f.kind != "renamed":
                 continue
             name = f.name
-            if name in ignored or is_padding_name(name):
+            if is_padding_name(name) or (name not in surfacing[key] if surfacing else name in ignored):
                 continue
             core, chain = unwrap(f)
             nested = core.kind == "struct" and not any(getattr(a, "cls", None) in COLLAPSING for a in chain)
